@@ -11,7 +11,7 @@ def nontrivial(c):
     fwd = False
     prev = ""
     for l in c["lines"]:
-        if l.startswith("obs ") and prev == "op drain" and l != "obs empty":
+        if l.startswith("obs ") and prev in ("op drain", "op flush") and l != "obs empty":
             fwd = True
         if l.startswith("op "):
             prev = l
@@ -22,7 +22,7 @@ SPEC = dict(
     property="C02",
     component="collector",
     props_module="Refinery.Props.C02",
-    quick=dict(cases=400, len=60, shards=4),
+    quick=dict(cases=240, len=60, shards=4),
     thorough=dict(cases=12800, len=160, shards=16),
     nontrivial=nontrivial,
     rule="cases = random interleavings of span arrivals (on time / late / racing sendTraces), ticks at a chosen trace's "
